@@ -179,6 +179,9 @@ h_bizda_add(void)
 	v.typ = DT_BIZDA;
 	v.bizda.y = vy, v.bizda.m = vm, v.bizda.bd = vb;
 	n = (int)dt_dconv(DT_DAISY, v).daisy;
+	/* the result lies inside the supported range (|n| business days are
+	 * fewer than 7|n|/5 + 3 days away) */
+	ASSUME(n - (7 * NMAX / 5 + 3) >= 1 && n + (7 * NMAX / 5 + 3) <= REF_MAX_DAY);
 	t = dt_dadd_b(v, vn);
 	CHECK(t.typ == DT_BIZDA, "calendar kept");
 	CHECK(ref_is_nth_bday(n, vn, (int)dt_dconv(DT_DAISY, t).daisy), "bizda + n business days");
